@@ -113,7 +113,8 @@ def _tables(ctx):
 STR_SUBJECTS = ('true', ' True ', 'YES', '0', 'off', 'maybe', '', 'tru', 't',
                 'FALSE\n', '\ty', 'on', 'No', 'n', '1', 'f', 'yes ', '2',
                 'truee', 'o n', 'ye\u017f', 'o\ufb00', 'fal\u017fe', 'TRUE',
-                '\uff54rue', 'O\u0130')
+                '\uff54rue', 'O\u0130', 'true\xa0', '\u3000no', 'YES\x1f',
+                '\x1cf', 'on\u2028', '\x85t\x85')
 
 
 def str_subjects(thorough):
